@@ -44,7 +44,11 @@ class LruRun:
         self.ops: list[int] = []
         self.outs: list[int] = []
         self.step_obs: list[list[int]] = []
-        self.mon: list[str] = []
+        self.mon: list[str] = []          # every monitor message
+        self.hits: list[tuple] = []       # (kind, key, message)
+        self.f3_keys: set[int] = set()    # keys whose placeholder was popped by a miss (implementation-observed)
+        self.f8_keys: set[int] = set()    # keys whose completed entry was popped / expired while a caller waited
+        self.ref_order: list[int] = []    # reference recency order (least recently used first)
         self.flags: set[str] = set()
         self.stepno = 0
         self.nextval = 1
@@ -68,6 +72,31 @@ class LruRun:
         self.crash = None
         self.acct_reported = False
 
+    # ------------------------------------------------------------------ monitor hits and their explanation
+    def hit(self, kind: str, key, msg: str):
+        self.mon.append(msg)
+        self.hits.append((kind, key, msg))
+
+    def explain(self, h):
+        """'F3' / 'F8' if the monitor hit h is a consequence of a known finding observed ON THE IMPLEMENTATION in
+        this history (for the key concerned), else None."""
+        kind, key, _ = h
+        if kind in ("double_flight", "reuse", "keyerror"):
+            if key in self.f3_keys:
+                return "F3"
+            if key in self.f8_keys:
+                return "F8"
+            return None
+        if kind == "exceeds":
+            return "F3" if self.f3_keys else None
+        return None
+
+    def unexplained(self):
+        return [h for h in self.hits if self.explain(h) is None]
+
+    def known_classes(self):
+        return {c for c in (self.explain(h) for h in self.hits) if c}
+
     # ------------------------------------------------------------------ set-up
     def __enter__(self):
         self._sess = self.world.session()
@@ -84,7 +113,7 @@ class LruRun:
             if others and run.effmax != 0:
                 ex["concurrent"] = True
                 run.flags.add("double_flight")
-                run.mon.append(f"single flight: caller {c} starts the wrapped function for key {k} while "
+                run.hit("double_flight", k, f"single flight: caller {c} starts the wrapped function for key {k} while "
                                f"caller {others[0]['caller']} is still executing it")
             others.append(ex)
             run.execs.append(ex)
@@ -191,6 +220,11 @@ class LruRun:
             return (code, 0) in en
         return (code, x) in en
 
+    def ref_touch(self, k):
+        if k in self.ref_order:
+            self.ref_order.remove(k)
+        self.ref_order.append(k)
+
     def served_unexpired(self, entry) -> bool:
         exp = entry[2]
         return exp is None or self.world.loop.time() < exp
@@ -285,33 +319,81 @@ class LruRun:
                     self.exp_hits += 1
                 if rk == 0 and self.effmax == 0:
                     self.exp_misses += 1
-        # ---- harness-side known-finding predicates, read off the real dict
+        # ---- reference recency order, driven by what the callers observed (install at the end when a key is
+        #      first requested, refresh on every served call at the moment it is served, stores keep the position)
         after = {self.dkey(t): e for t, e in self.real_dict()}
+        started_now = False
+        if actor is not None:
+            started_now = bool(self.execs) and len(self.execs) > nexec0 and self.execs[-1]["caller"] == actor
+        if code == 6:
+            self.ref_order = []
+        elif actor is not None and self.effmax != 0:
+            k = call["key"]
+            finished = out is not None and out[0] != "blocked"
+            if code == 0:
+                if call.get("hit_counted") or (finished and rk == 0 and call["exec"] is None):
+                    self.ref_touch(k)
+                elif k not in self.ref_order:
+                    self.ref_order.append(k)
+            elif finished and rk == 0:
+                if call["exec"] is None and not call.get("hit_counted"):
+                    self.ref_touch(k)              # waited for the flight and reused its result
+                elif call["exec"] is not None and k not in self.ref_order:
+                    self.ref_order.append(k)       # stored after its placeholder had gone
+        # ---- evictions and ttl replacements as the IMPLEMENTATION performed them (cache dict before / after)
         if code != 6:
             for k, e in before.items():
                 if k not in after:
+                    if not started_now:
+                        self.flags.add("removal_outside_miss")
+                        continue
+                    # popitem at the miss of the acting caller
+                    expected = self.ref_order[0] if self.ref_order else None
+                    if expected is not None and k != expected:
+                        self.hit("lru_order", k, f"LRU order: the miss of caller {actor} evicted key {k} although key "
+                                                 f"{expected} is the least recently used (recency {self.ref_order})")
+                    if k in self.ref_order:
+                        self.ref_order.remove(k)
                     if e[1] is not None:
                         self.fi = True
+                        self.f3_keys.add(k)
                         self.flags.add("evict_inflight")
                     else:
                         self.flags.add("evict_value")
                         if k in waiting_keys:
                             self.fw = True
+                            self.f8_keys.add(k)
                             self.flags.add("evict_waited")
                 elif e[1] is None and after[k][1] is not None:
-                    self.flags.add("ttl_expiry_replaced")
-                    if k in waiting_keys:
-                        self.fw = True
-                        self.flags.add("evict_waited")
+                    if code == 0 and not self.served_unexpired(e):
+                        self.flags.add("ttl_expiry_replaced")
+                        if k in waiting_keys:
+                            self.fw = True
+                            self.f8_keys.add(k)
+                            self.flags.add("evict_waited")
+                    else:
+                        self.flags.add("replacement_without_expiry")
+        if code != 6 and started_now and self.effmax != 0 and call["key"] not in after and call["key"] not in before:
+            # the acting caller installed its placeholder and its own miss popped it again within this step
+            k = call["key"]
+            expected = self.ref_order[0] if self.ref_order else None
+            if expected is not None and k != expected:
+                self.hit("lru_order", k, f"LRU order: the miss of caller {actor} evicted key {k} although key "
+                                         f"{expected} is the least recently used (recency {self.ref_order})")
+            if k in self.ref_order:
+                self.ref_order.remove(k)
+            self.fi = True
+            self.f3_keys.add(k)
+            self.flags.add("evict_inflight")
         obs = [rk, rv, info1.hits, info1.misses, info1.currsize, int(self.fi), int(self.fw)] + self.observe_dict()
         self.ops += [code, x, y]
         self.outs += obs
         self.step_obs.append(obs)
         if info1.maxsize != self.effmax or info1.ttl != self.ttl:
-            self.mon.append(f"cache_info reports maxsize={info1.maxsize} ttl={info1.ttl}")
+            self.hit("cacheinfo", None, f"cache_info reports maxsize={info1.maxsize} ttl={info1.ttl}")
         if (info1.hits, info1.misses) != (self.exp_hits, self.exp_misses) and not self.acct_reported:
             self.acct_reported = True
-            self.mon.append(f"cache_info accounting: hits={info1.hits} misses={info1.misses} but the history has "
+            self.hit("accounting", None, f"cache_info accounting: hits={info1.hits} misses={info1.misses} but the history has "
                             f"{self.exp_hits} calls served from the cache and {self.exp_misses} executions")
         return rk, rv
 
@@ -323,15 +405,15 @@ class LruRun:
         call["result"] = out
         if kind == "ok":
             if not isinstance(val, int):
-                self.mon.append(f"value faithful: caller {c} key {k} got {val!r}")
+                self.hit("value", k, f"value faithful: caller {c} key {k} got {val!r}")
                 return 8, 0
             src = self.stored_at.get(val)
             if src is None or src[0] != k:
-                self.mon.append(f"value faithful: caller {c} asked for key {k} and got {val}, which the wrapped "
+                self.hit("value", k, f"value faithful: caller {c} asked for key {k} and got {val}, which the wrapped "
                                 f"function never returned for that key")
             elif ex is not None:
                 if ex["outcome"] != ("ret", val):
-                    self.mon.append(f"value faithful: caller {c} key {k}: own execution ended with "
+                    self.hit("value", k, f"value faithful: caller {c} key {k}: own execution ended with "
                                     f"{ex['outcome']} but the call returned {val}")
             else:
                 # served from the cache / from somebody else's flight
@@ -346,10 +428,10 @@ class LruRun:
                               and e["end"] <= read_step),
                              key=lambda e: e["end"], default=None)
                 if latest is not None and latest["outcome"][1] != val:
-                    self.mon.append(f"stale value: caller {c} key {k} was served {val} although the latest "
+                    self.hit("stale", k, f"stale value: caller {c} key {k} was served {val} although the latest "
                                     f"completed execution returned {latest['outcome'][1]}")
                 if self.ttl is not None and src[1] < call["begin"] and call["T"] >= src[2] + self.ttl:
-                    self.mon.append(f"expired entry served: caller {c} key {k} called at t={call['T']} and was "
+                    self.hit("expired", k, f"expired entry served: caller {c} key {k} called at t={call['T']} and was "
                                     f"served {val} computed at t={src[2]} (ttl={self.ttl})")
                 self.last_use[k] = self.stepno
             if ex is not None and ex["outcome"] == ("ret", val):
@@ -361,7 +443,7 @@ class LruRun:
         e = val
         if isinstance(e, CancelledError):
             if c not in self.cancel_req:
-                self.mon.append(f"caller {c} got CancelledError without a cancel request")
+                self.hit("cancel", k, f"caller {c} got CancelledError without a cancel request")
             self.cancel_req.discard(c)
             if ex is not None:
                 self.check_reuse(c, call)
@@ -373,12 +455,12 @@ class LruRun:
             return 3, EXC_CLASSES.index(type(e))
         if isinstance(e, KeyError):
             self.flags.add("internal_keyerror")
-            self.mon.append(f"internal error: caller {c} key {k} got {e!r} which the wrapped function did not raise")
+            self.hit("keyerror", k, f"internal error: caller {c} key {k} got {e!r} which the wrapped function did not raise")
             return 4, 0
         if isinstance(e, RuntimeError):
-            self.mon.append(f"internal error: caller {c} key {k} got {e!r}")
+            self.hit("internal", k, f"internal error: caller {c} key {k} got {e!r}")
             return 6, 0
-        self.mon.append(f"internal error: caller {c} key {k} got unexpected {e!r}")
+        self.hit("internal", k, f"internal error: caller {c} key {k} got unexpected {e!r}")
         return 8, 0
 
     def check_reuse(self, c, call):
@@ -392,7 +474,7 @@ class LruRun:
             v = ov["outcome"][1]
             if self.ttl is not None and self.world.loop.time() >= self.stored_at[v][2] + self.ttl:
                 return
-            self.mon.append(f"single flight / reuse: caller {c} key {call['key']} called while caller "
+            self.hit("reuse", call["key"], f"single flight / reuse: caller {c} key {call['key']} called while caller "
                             f"{ov['caller']} was computing, that flight returned {v}, and {c} executed the wrapped "
                             f"function again")
 
@@ -416,7 +498,7 @@ class LruRun:
         others |= {cc["key"] for cc in self.calls if cc["key"] != k and cc["begin"] <= t1 and
                    (cc["end"] is None or cc["end"] >= t1)}
         if self.effmax is None or len(others) < self.effmax:
-            self.mon.append(f"LRU retention: key {k} was recomputed by caller {c} although only "
+            self.hit("retention", k, f"LRU retention: key {k} was recomputed by caller {c} although only "
                             f"{len(others)} other keys were used since its last use (maxsize={self.effmax})")
 
     # ------------------------------------------------------------------ end of case
@@ -451,7 +533,7 @@ class LruRun:
                 self.probe(0, a)
         self.retention_bound()
         if w.loop.errors:
-            self.mon.append(f"loop errors: {w.loop.errors[:2]}")
+            self.hit("loop", None, f"loop errors: {w.loop.errors[:2]}")
 
     def fresh(self):
         v = self.nextval
@@ -482,7 +564,7 @@ class LruRun:
             ks = {k for (a, b, k) in iv if a <= t <= b}
             if len(ks) > self.effmax:
                 self.flags.add("exceeds_maxsize")
-                self.mon.append(f"bounded retention: keys {sorted(ks)} were all retained at step {t} "
+                self.hit("exceeds", None, f"bounded retention: keys {sorted(ks)} were all retained at step {t} "
                                 f"(maxsize={self.effmax})")
                 return
 
@@ -556,6 +638,83 @@ def random_case(rng: random.Random, nsteps: int):
         return r
 
 
+def directed_case(rng: random.Random):
+    """Directed family: one flight of key A with callers queued on it, other keys used meanwhile, the flight then
+    returns / raises / is cancelled, the waiters run, further keys are added until something is evicted, and every
+    key is probed.  Reaches 'most recent use went through the lock-wait path' and 'failure with waiters queued'."""
+    m = rng.choice([None, 2, 2, 3, 4])
+    cfg = {"maxsize": m, "ttl": rng.choice([None, None, 5]), "always_checkpoint": rng.random() < 0.3,
+           "typed": False, "ncall": 4}
+    with LruRun(cfg["maxsize"], cfg["ttl"], cfg["always_checkpoint"], cfg["typed"], cfg["ncall"]) as r:
+        r.valid = True
+        r.flags.add("directed")
+        w = r.world
+
+        def settle(c, finish=True):
+            """run caller c's call forward: to the wrapped function, and if `finish` to its end"""
+            for _ in range(8):
+                p = w.puppets[c]
+                if p.at_decision:
+                    return
+                f = r.wfut.get(c)
+                if r.stage.get(c) == "wrapped" and f is not None and not f.done():
+                    if not finish:
+                        return
+                    r.do(1, c, r.fresh())
+                if w.runnable(p):
+                    r.do(4, c, 0)
+                else:
+                    return
+
+        try:
+            keys = list(range(6))
+            rng.shuffle(keys)
+            a_key, others = keys[0], keys[1:]
+            order = rng.random() < 0.5
+            nb = rng.randrange(0, (m or 3))
+            if order:
+                for kb in others[:nb]:
+                    r.do(0, 1, 2 * kb)
+                    settle(1)
+            r.do(0, 0, 2 * a_key)                      # the flight of A
+            settle(0, finish=False)
+            if not order:
+                for kb in others[:nb]:
+                    r.do(0, 1, 2 * kb)
+                    settle(1)
+            for kb in others[:nb]:
+                if rng.random() < 0.4:                 # hits on the other keys while A is in flight
+                    r.do(0, 1, 2 * kb)
+                    settle(1)
+            waiters = [2] if rng.random() < 0.6 else [2, 3]
+            for c in waiters:
+                r.do(0, c, 2 * a_key)
+            how = rng.choice(["ret", "ret", "ret", "exc", "cancel"])
+            if 0 in r.wfut and r.stage.get(0) == "wrapped":
+                if how == "ret":
+                    r.do(1, 0, r.fresh())
+                elif how == "exc":
+                    r.do(2, 0, rng.randrange(3))
+                else:
+                    r.do(3, 0, 0)
+            extra = 1 if rng.random() < 0.3 else None  # somebody else slips in between
+            if w.runnable(w.puppets[0]):
+                r.do(4, 0, 0)
+            if extra is not None and w.puppets[1].at_decision:
+                r.do(0, 1, 2 * rng.choice(others[:nb] or [others[0]]))
+                settle(1)
+            for c in waiters:
+                settle(c)
+            for kc in others[nb:nb + rng.choice([1, 1, 2])]:
+                r.do(0, 1, 2 * kc)                     # new keys: evictions
+                settle(1)
+            r.quiesce()
+        except Exception as e:  # noqa: BLE001
+            r.crash = f"{type(e).__name__}: {e}"
+            r.valid = False
+        return r
+
+
 def exhaustive_cases(cfg, nkeys: int, depth: int):
     """All op sequences up to `depth` that the implementation enables (DFS by replay), callers used in order."""
     results = []
@@ -622,7 +781,7 @@ def shrink(cfg, ops):
             r = run_script(cfg, o, quiesce=True, strict=True)
         except Exception:  # noqa: BLE001
             return None
-        if r.valid and r.mon and not r.fi and not r.fw:
+        if r.valid and r.unexplained():
             return r
         return None
 
@@ -675,6 +834,9 @@ def check(tier: str) -> int:
     n_random = 350 if tier == "quick" else 9000
     for _ in range(n_random):
         runs.append(random_case(rng, rng.choice([6, 10, 16, 24, 40])))
+    n_directed = 150 if tier == "quick" else 3000
+    for _ in range(n_directed):
+        runs.append(directed_case(rng))
     base = {"ttl": None, "always_checkpoint": False, "typed": False}
     if tier == "thorough":
         ex = (exhaustive_cases(dict(base, maxsize=1, ncall=3), 2, 7)
@@ -707,27 +869,36 @@ def check(tier: str) -> int:
     idx = list(range(n_corpus)) + rng.sample(range(n_corpus, len(cases)), min(sample_n, len(cases) - n_corpus))
     vm_ok, vm_log = core.coq_eval_cases("c20", "Lru", [cases[i] for i in idx], [expected[i] for i in idx])
 
-    # ---- decide ----
+    # ---- decide ----  (explanations come from what was observed on the implementation, per monitor hit)
     n_known = {"F3": 0, "F8": 0}
     viol = []
-    for r, mf in zip(runs, mflags):
-        if not r.mon:
+    for r in runs:
+        if not r.hits:
             continue
-        cls = classify(r, mf if (mf is not None and not disagreements) else None)
-        if cls == "F3":
-            n_known["F3"] += 1
-            rep.known_finding(F3_WHAT)
-        elif cls == "F8":
-            n_known["F8"] += 1
-            rep.known_finding(F8_WHAT)
-        else:
+        for cls in r.known_classes():
+            n_known[cls] += 1
+            rep.known_finding(F3_WHAT if cls == "F3" else F8_WHAT)
+        if r.unexplained():
             viol.append(r)
+    any_tie = (not proofs_ok) or disagreements or rejected or any(r.crash for r in runs) or not vm_ok
+    if any_tie and not viol:
+        # a tie is broken and no monitor tripped on this batch: search further on the implementation alone
+        srng = random.Random(core.seed() + 1)
+        for i in range(1500 if tier == "quick" else 6000):
+            r = directed_case(srng) if i % 3 == 0 else random_case(srng, srng.choice([10, 16, 24, 40]))
+            if r.unexplained():
+                viol.append(r)
+                if len(viol) >= 3:
+                    break
     viol.sort(key=lambda r: len(r.ops))
     for r in viol[:3]:
         small = shrink(r.cfg(), r.ops) or r
-        rep.violation(small.mon[0], {"kind": "monitor", "cfg": small.cfg(), "ops": small.ops,
-                                     "ops_readable": readable(small.ops), "monitor_hits": small.mon[:5],
-                                     "replay": "harness/c20.py: run_script(cfg, ops)"})
+        un = small.unexplained()
+        rep.violation(un[0][2], {"kind": "monitor", "cfg": small.cfg(), "ops": small.ops,
+                                 "ops_readable": readable(small.ops), "monitor_hits": [h[2] for h in un[:5]],
+                                 "implementation_observed": {"placeholder_evicted_keys": sorted(small.f3_keys),
+                                                             "waited_entry_evicted_keys": sorted(small.f8_keys)},
+                                 "replay": "python harness/c20.py <this file>"})
     tie_broken = []
     if not proofs_ok:
         tie_broken.append("proof obligation: " + str(rep.coverage.get("proof_failure", {}).get("where")))
@@ -773,13 +944,17 @@ def check(tier: str) -> int:
         "traces_validated_against_impl": len(runs) - len(disagreements),
         "disagreements_checked": len(disagreements),
         "distinct_nontrivial": distinct,
+        "directed_cases": n_directed,
         "rule": "random walk over the ops the implementation enables (idle caller: call with one of <= 4 argument "
                 "values, int or float; blocked caller: resume if its wake-up is queued, native cancel, resolve the "
                 "future of its wrapped-function execution with a fresh value or an exception; tick of the virtual "
                 "clock; cache_clear at quiescence), 2-4 callers, maxsize None/-1/0/1/2/3, ttl None/0/1/2/3, typed and "
                 "always_checkpoint on/off, then quiescence and one probe call per key; plus exhaustive enumeration "
                 "of all enabled op sequences to a fixed depth; non-trivial = reaches a contended wait, an eviction, "
-                "a ttl replacement, a reuse of a first result or a cancellation inside the call",
+                "a ttl replacement, a reuse of a first result or a cancellation inside the call; plus a directed family (one "
+                "flight with callers queued on it, other keys used meanwhile, the flight returns / raises / is cancelled, "
+                "further keys until eviction, probes); monitor hits are explained per key from the evictions observed "
+                "on the implementation's cache dict",
         "exhaustive_small_scope_cases": exhaustive,
         "corpus_cases": n_corpus,
         "corpus_files": corpus_names,
@@ -818,7 +993,9 @@ def replay(path: str) -> int:
     print("evicts_inflight", r.fi, "evicts_waited", r.fw, "crash", r.crash)
     for m in r.mon:
         print("MONITOR:", m)
-    return 1 if r.mon and not (r.fi or r.fw) else 0
+    for h in r.hits:
+        print("  explained by", r.explain(h), ":", h[0], h[1])
+    return 1 if r.unexplained() else 0
 
 
 if __name__ == "__main__":
